@@ -94,6 +94,9 @@ def init_point(h, c, e, x, valid, d, rng):
     pw = b'pw-' + rng.randbytes(3).hex().encode()
     if rng.random() < 0.5 or 'blake2b' in e:
         pw = long_pw(rng.randbytes(3).hex().encode())
+    if 'blake2b' in e and h != 'h-default':
+        # ... and BEYOND the key-size limit of BLAKE2b (a long pass phrase): refusing it is fine, accepting it means every bit of it must count
+        pw = pw + b' and then some more words of a long pass phrase'
     ev = {'a': 'init', 'point': [h, c, e, x], 'valid': bool(valid), 'accepted': True, 'mutations': 0, 'unlock': False, 'roundtrip': False, 'detail': '~'}
     # the key is taken from the file replicat writes (--key-output-file); for every other point a LONGER file is already there
     # (an old key, a note): what counts is what is on disk afterwards
@@ -143,7 +146,7 @@ def chain_events(chain, d, rng):
             kf.write_bytes(w.users[frm].key + b' ' * 200)        # e.g. replacing a key file in place: the old, longer content is there
         ev['keyfile'] = mode
         try:
-            w.add_key(frm, nm, long_pw(b'%d' % (i + 1)), shared=(kind == 'shared'), clone=(kind == 'clone'), settings_={'encryption': {'kdf': dict(K[kdf])}},
+            w.add_key(frm, nm, long_pw(b'%d' % (i + 1)) + (b' and a few more words' if kdf == 'k-blake2b' and i % 2 else b''), shared=(kind == 'shared'), clone=(kind == 'clone'), settings_={'encryption': {'kdf': dict(K[kdf])}},
                       key_file=None if mode == 'print' else str(kf))
         except BaseException as ex:  # noqa: BLE001
             ev.update(accepted=False, detail='%s: %s' % (type(ex).__name__, str(ex)[:100]), mutations=len(store.mutlog) - before)
